@@ -20,7 +20,6 @@ import (
 	"github.com/nspcc-dev/neo-go/pkg/crypto/hash"
 	"github.com/nspcc-dev/neo-go/pkg/io"
 	"github.com/nspcc-dev/neo-go/pkg/network/payload"
-	"github.com/nspcc-dev/neo-go/pkg/smartcontract/manifest"
 	"github.com/nspcc-dev/neo-go/pkg/smartcontract/nef"
 	"github.com/nspcc-dev/neo-go/pkg/smartcontract/trigger"
 	"github.com/nspcc-dev/neo-go/pkg/util"
@@ -41,9 +40,11 @@ type valueT struct {
 	origin string // canon | nc-signed | nc-unsigned
 	fresh  func() (any, error)
 	// expected observations, computed by the harness from the canonical bytes (not by the object's own Hash())
-	h0   string
-	b0   []byte
-	deep bool // take part in the longest paths
+	h0      string
+	b0      []byte
+	deep    bool // take part in paths of two transports
+	deeper  bool // take part in paths of three transports
+	deepest bool // take part in the longest paths
 }
 
 func sha(b []byte) util.Uint256 { return util.Uint256(sha256.Sum256(b)) }
@@ -202,7 +203,7 @@ func nonCanonical(ks map[string]*kindT, v *valueT, trace func([]byte) ([]field, 
 		} else {
 			seenUnsigned++
 		}
-		out = append(out, &valueT{kind: v.kind, cls: v.cls, src: v.src, origin: org, fresh: fr, h0: v.h0, b0: v.b0, deep: v.deep && (seenSigned+seenUnsigned) <= 2})
+		out = append(out, &valueT{kind: v.kind, cls: v.cls, src: v.src, origin: org, fresh: fr, h0: v.h0, b0: v.b0, deep: true})
 	}
 	return out
 }
@@ -255,13 +256,17 @@ func aerClass(a *state.AppExecResult) string {
 	for _, it := range a.Stack {
 		walk(it, 0)
 	}
-	return fmt.Sprintf("%s %s stack=%d events=%d", a.Trigger, a.VMState, len(a.Stack), len(a.Events))
+	inv := ""
+	if len(a.Invocations) > 0 {
+		inv = fmt.Sprintf(" invocations=%d", len(a.Invocations))
+	}
+	return fmt.Sprintf("%s %s stack=%d events=%d%s", a.Trigger, a.VMState, len(a.Stack), len(a.Events), inv)
 }
 
 func growChain(t testing.TB, ks map[string]*kindT, srih bool, seed int64, nblocks, maxTx int) (*chainVals, error) {
 	cv := &chainVals{srih: srih, stats: map[string]int{}}
 	net := chainkit.NewNet(5, 3)
-	bc, err := net.NewChain(nil, func(c *config.Blockchain) { c.StateRootInHeader = srih })
+	bc, err := net.NewChain(nil, func(c *config.Blockchain) { c.StateRootInHeader = srih; c.SaveInvocations = srih })
 	if err != nil {
 		return nil, err
 	}
@@ -581,7 +586,6 @@ func handValues(ks map[string]*kindT, r *rand.Rand) []*valueT {
 		}
 	}
 	add("mptnode", "hash", append([]byte{byte(mpt.HashT)}, rnd(r, 32)...), false, true)
-	add("mptnode", "empty", []byte{byte(mpt.EmptyT)}, false, true)
 	return out
 }
 
